@@ -101,12 +101,51 @@ def field_writers(ast, fields):
     return {k: sorted(v) for k, v in w.items()}
 
 
+def writers_via_static(ast, writers):
+    """like `writers`, but a field written by a STATIC helper counts as written by every function of the file that
+    (transitively, through static helpers only) calls that helper: a reset function that delegates its assignments
+    to a file-local helper still 'writes' those fields.  Public functions (setters) do not propagate."""
+    fns = functions(ast)
+    static = {name for name, fn in fns if fn.get("storageClass") == "static"}
+    calls = {}
+    for fname, fn in fns:
+        cs = set()
+        for n in walk(fn):
+            if n.get("kind") == "CallExpr" and n.get("inner"):
+                c = _strip(n["inner"][0])
+                if isinstance(c, dict) and c.get("kind") == "DeclRefExpr":
+                    nm = (c.get("referencedDecl") or {}).get("name")
+                    if nm in static:
+                        cs.add(nm)
+        calls[fname] = cs
+    reach = {f: set(cs) for f, cs in calls.items()}
+    changed = True
+    while changed:
+        changed = False
+        for f in reach:
+            new = set(reach[f])
+            for g in list(reach[f]):
+                new |= reach.get(g, set())
+            if new != reach[f]:
+                reach[f] = new
+                changed = True
+    out = {}
+    for field, ws in writers.items():
+        acc = set(ws)
+        for f, r in reach.items():
+            if r & set(ws):
+                acc.add(f)
+        out[field] = sorted(acc)
+    return out
+
+
 def collect():
     res = {}
     for tag, src, pre in STRUCTS:
         ast = tu_ast(src)
         fs = struct_fields(ast, tag)
-        res[pre] = {"tag": tag, "file": src, "fields": [(n, t) for n, t, _ in fs], "writers": field_writers(ast, fs)}
+        w = field_writers(ast, fs)
+        res[pre] = {"tag": tag, "file": src, "fields": [(n, t) for n, t, _ in fs], "writers": w, "writers_via_static": writers_via_static(ast, w)}
     return res
 
 
@@ -127,6 +166,9 @@ def structs_v(res):
         out.append("(* field |-> functions of src/%s that assign it *)" % src)
         out.append("Definition %s_writers : list (string * list string) := [\n  %s\n]." % (
             pre, ";\n  ".join("(%s, [%s])" % (q(n), "; ".join(q(f) for f in r["writers"][n])) for n, _ in r["fields"])))
+        out.append("(* the same, with assignments made by file-local (static) helpers attributed to their callers too *)")
+        out.append("Definition %s_writers_via_static : list (string * list string) := [\n  %s\n]." % (
+            pre, ";\n  ".join("(%s, [%s])" % (q(n), "; ".join(q(f) for f in r["writers_via_static"][n])) for n, _ in r["fields"])))
         out.append("")
     return "\n".join(out) + "\n"
 
